@@ -490,6 +490,15 @@ void put_waveform(std::ostream& os, const std::vector<dj::waveform_entry>& w)
     }
     os << w.size() << "#" << hash128(raw).substr(0, 16);
 }
+}  // namespace
+std::string waveform_text(const std::vector<dj::waveform_entry>& w)
+{
+    std::ostringstream os;
+    put_waveform(os, w);
+    return os.str();
+}
+namespace
+{
 void put_grid(std::ostream& os, const std::vector<dj::beatgrid_marker>& g)
 {
     os << "[";
